@@ -5,6 +5,10 @@ import json, subprocess
 BASELINE = json.load(open('/root/.vp/BASELINE.json'))['cmd']
 
 CHECKS = {
+ "C16": dict(level="model_checking", design="DESIGN.md §4 C16",
+   text="(a) Explicit-state search over every sequence of up to 5 (6) script lines from a 19-line alphabet (block openers/closers/else, array literals and strings split over lines, strings and comments containing every delimiter, escaped quotes and backslashes, blank lines) fed to the real read-eval loop through the real file reader (with and without final newline) and a REPL-style line reader with a recording parser; the inputs handed to the parser must equal, token for token, the statements a lexer-aware splitter finds. (b) Every script of up to 3 (4) statements from a 24-statement alphabet run through the built binary in -eval (single statements), piped-REPL and file mode; each mode's output must equal what in-process statement-by-statement execution predicts.",
+   note="The splitter model and the in-process expected output are harness side; ill-formed line sequences are skipped and counted; runtime error reports are compared on their first line.",
+   technique="explicit-state exploration of line sequences on the real read-eval loop against a splitter model + exhaustive script x run-mode enumeration on the built binary"),
  "C18": dict(level="model_checking", design="DESIGN.md §4 C18",
    text="Explicit-state breadth-first search over every legal sequence (depth 5, thorough 6) of 37 memory operations as the VM issues them - push bursts crossing every 128-slot boundary, pops, frame capture, calls with narrow and wide frames and old/new captured frames, returns, local and global writes, forking a context into a fresh or a recycled memory, switching, destroying - executed on the real memory.Type by replaying each path on a fresh instance; after every transition the whole live content of every memory, the accessor views and every captured frame are compared with a list-of-frames model. Plus recursion to depth 100000.",
    note="State key = bookkeeping only (sound by data independence); bounded to 3 live memories, 3 frames and 3 captured frames per state; sequences longer than the depth bound are not covered.",
